@@ -97,6 +97,7 @@ function buildImports(spec, log) {
       if (im.max !== null && im.max !== undefined) d.maximum = im.max;
       if (im.shared) d.shared = true;
       v = new WebAssembly.Memory(d);
+      for (const [off, hex] of im.fill || []) new Uint8Array(v.buffer).set(Buffer.from(hex, 'hex'), off);   // embedder wrote these bytes before instantiation
       if (created.memory === null) created.memory = v;
     } else if (im.kind === 'table') {
       const d = { element: 'anyfunc', initial: im.min };
